@@ -226,6 +226,9 @@ pub(crate) mod kani_verif {
     }
 
     fn check_from<const L: usize>(fixed_codes: Option<[u8; L]>) {
+        check_from_c::<L>(fixed_codes, None)
+    }
+    fn check_from_c<const L: usize>(fixed_codes: Option<[u8; L]>, fixed_counter: Option<u64>) {
         CHILD_CALLS.store(0, Ordering::Relaxed);
         RND_CALLS.store(0, Ordering::Relaxed);
         KP_CALLS.store(0, Ordering::Relaxed);
@@ -241,7 +244,7 @@ pub(crate) mod kani_verif {
             pb[i] = (codes[i] << 4) | 4;
             i += 1;
         }
-        let c: u64 = kani::any();
+        let c: u64 = match fixed_counter { Some(v) => v, None => kani::any() };
         kani::assume(spec_total_height(&hs) > 63 || (c as u128) < spec_total_leaves(&hs));
         let mut rk = ReferenceImplPrivateKey::<HF>::default();
         rk.compressed_used_leafs_indexes = CompressedUsedLeafsIndexes::new(c);
@@ -300,7 +303,7 @@ pub(crate) mod kani_verif {
             assert!(k.private_key[i].used_leafs_index == want, "used leaves: digit (+1 above the bottom)");
             i += 1;
         }
-        kani::cover!(c > 1000, "non-trivial counter reachable");
+        kani::cover!(fixed_counter.is_some() || c > 1000, "non-trivial counter reachable");
     }
 
     macro_rules! from_harness {
@@ -319,6 +322,21 @@ pub(crate) mod kani_verif {
                 check_from::<$l>($codes);
             }
         };
+    }
+    // @h name=c03_from_l2_pts props=C03,C07!,C01!,C05,C13!,C10! tier=quick kind=bounded cfg=L2w8 timeout=900 funcs=HssPrivateKey::from note="L=2, heights (10,5), counters 33 and 2^15-1 only (the all-counters harness c03_from_l2 is in the thorough tier; unbounded: Verus unit v8_hss)" contract="same contract as c03_from_l2 at two concrete counters: quick guard for the loop header of HssPrivateKey::from, which the Verus unit v8_hss rewrites to an index loop"
+    #[kani::proof]
+    #[kani::stub(zeroize::optimization_barrier, no_barrier)]
+    #[kani::stub(<[u8; 32] as tinyvec::Array>::default, fast_default)]
+    #[kani::stub(crate::hss::reference_impl_private_key::ReferenceImplPrivateKey::generate_root_seed_and_lms_tree_identifier, stub_root_seed)]
+    #[kani::stub(crate::hss::reference_impl_private_key::generate_child_seed_and_lms_tree_identifier, stub_child_seed)]
+    #[kani::stub(crate::hss::reference_impl_private_key::generate_signature_randomizer, stub_rnd)]
+    #[kani::stub(crate::lms::generate_key_pair, stub_key_pair)]
+    #[kani::stub(crate::lms::signing::LmsSignature::sign, stub_sign)]
+    #[kani::stub(crate::hss::reference_impl_private_key::CompressedUsedLeafsIndexes::to, crate::hss::reference_impl_private_key::kani_verif::contract_to)]
+    #[kani::unwind(60)]
+    fn c03_from_l2_pts() {
+        check_from_c::<2>(Some([6u8, 5u8]), Some(33));
+        check_from_c::<2>(Some([6u8, 5u8]), Some(32767));
     }
     // @h name=c03_from_l1 props=C03,C07,C01,C05,C13,C10 tier=quick kind=proved cfg=L2w8 timeout=2400 funcs=HssPrivateKey::from contract="expanded key of counter c: level i tree = derive(level i-1 (seed,I), digit i-1), current leaf = digit i; child public key i signed by level i-1 leaf digit i-1 over its serialisation; used-leaf vector = digits (+1 above bottom); aux dropped after the top tree's signature; every counter; callees by contract (incl. CompressedUsedLeafsIndexes::to, proved in c13_to_*); L=1, height 10"
     from_harness!(c03_from_l1, 1, Some([6u8]));
